@@ -69,9 +69,59 @@ example :
     parallelRun 1 5 true [.retry, .accept b, .accept a, .retry, .accept c, .accept b', .accept a] false false
       = .ok [some a, some b'] := by rfl
 
+/-- no mixing: a filled slot of the parallel result holds ONE accepted reply in its entirety
+    (address, RTT and destination mark together), and that reply is for this TTL -/
+theorem c07_slot_is_accepted_reply (σ : List Probe) (t : Nat) (q : Probe) (h : merge σ t = some q) :
+    q ∈ σ ∧ q.ttl = t := by
+  rw [merge_eq_best] at h
+  unfold best at h
+  cases hfd : firstDest σ t with
+  | some p =>
+    rw [hfd] at h
+    simp only [Option.some.injEq] at h
+    subst h
+    have h1 := List.find?_some hfd
+    have h2 := List.mem_of_find?_eq_some hfd
+    simp at h1
+    exact ⟨h2, h1.1⟩
+  | none =>
+    rw [hfd] at h
+    simp only at h
+    have h1 := List.find?_some h
+    have h2 := List.mem_of_find?_eq_some h
+    simp at h1
+    exact ⟨h2, h1⟩
+
+/-- destination mark of a slot (C04 at the engine): the slot for TTL `t` carries the destination
+    mark exactly when some accepted reply for `t` is a destination reply — and then the slot IS such
+    a reply (its address and RTT are the destination reply's, never an earlier router's) -/
+theorem c07_slot_dest_iff (σ : List Probe) (t : Nat) (q : Probe) (h : merge σ t = some q) :
+    q.dest = true ↔ ∃ p ∈ σ, p.ttl = t ∧ p.dest = true := by
+  constructor
+  · intro hd
+    obtain ⟨hm, ht⟩ := c07_slot_is_accepted_reply σ t q h
+    exact ⟨q, hm, ht, hd⟩
+  · rintro ⟨p, hp, hpt, hpd⟩
+    rw [merge_eq_best] at h
+    unfold best at h
+    cases hfd : firstDest σ t with
+    | some r =>
+      rw [hfd] at h
+      simp only [Option.some.injEq] at h
+      subst h
+      have h1 := List.find?_some hfd
+      simp at h1
+      exact h1.2
+    | none =>
+      exfalso
+      have := List.find?_eq_none.mp hfd p hp
+      simp [hpt, hpd] at this
+
 #print axioms c07_merge_eq_best
 #print axioms c07_parallel_result
 #print axioms c07_same_accepted_same_result
 #print axioms c07_lts_slots
 #print axioms c07_all_reflected
+#print axioms c07_slot_is_accepted_reply
+#print axioms c07_slot_dest_iff
 end TRV.Props.C07
